@@ -44,6 +44,15 @@ Theorem C05_get_out_of_range : forall s (r c : Z),
 Proof. exact so_get_out_of_range. Qed.
 Print Assumptions C05_get_out_of_range.
 
+(** Columns in the same order: a finished row that punched pairwise distinct names forming a prefix of the heading list, in
+    heading order, has its k-th value in column k (text cells are positional, table cells are stored by name); the
+    hypothesis is checked on every recorded row (check row:column-order) and is necessary (SelOutProofs.skipped_value_misaligns). *)
+Theorem C05_aligned_row_positional : forall t r k d,
+  aligned (t_heads t) (nth (r - 1) (t_closed t) []) -> k < List.length (nth (r - 1) (t_closed t) []) ->
+  spec_get t r k = snd (nth k (nth (r - 1) (t_closed t) []) d).
+Proof. exact aligned_row_positional. Qed.
+Print Assumptions C05_aligned_row_positional.
+
 (** Three sinks, one event stream: for every recorded engine->io stream and every switch setting the
     string of user number n, its file and its table are folds of the SAME events. *)
 Section Sinks.
